@@ -147,6 +147,12 @@ func rejectedSeg(codec segment.Codec, r io.Reader) (ok bool, why string) {
 	return true, ""
 }
 
+// acceptsIntact decodes the unaltered base with codec (a codec that has state would now hold it).
+func acceptsIntact(codec segment.Codec, b baseSeg) bool {
+	s, err := codec.DecodeSegment(bytes.NewReader(b.enc))
+	return err == nil && s != nil
+}
+
 // headerFault applies pattern (bit i of pattern = bit i of header+CRC in wire order, LSB of byte 0 first).
 func headerFault(b baseSeg, codec segment.Codec, pattern uint64, strict bool) (bool, string) {
 	head := append([]byte{}, b.enc[:b.hdrLen]...)
@@ -227,9 +233,19 @@ func TestC07HeaderExhaustive(t *testing.T) {
 			}
 		}
 		codec := segCodec(b.lz)
+		seen := 0
 		for w := 1; w <= maxW; w++ {
 			failed := false
 			cnt := forEachPattern(nbits, w, k, n, func(p uint64) bool {
+				// the codec under attack is one that has been (and keeps being) used on the intact segment
+				if seen%257 == 0 {
+					if !acceptsIntact(codec, b) {
+						t.Errorf("base %s: the intact segment is refused", b.name)
+						failed = true
+						return false
+					}
+				}
+				seen++
 				if ok, why := headerFault(b, codec, p, false); !ok {
 					rec.Violation("header-fault-accepted", map[string]interface{}{"base": b.name, "pattern": fmt.Sprintf("%#x", p), "weight": w, "shape": "consistent-tail", "why": why, "segment": fmt.Sprintf("%x", clipBytes(b.enc))})
 					t.Errorf("base %s: header fault pattern %#x (weight %d) not rejected: %s", b.name, p, w, why)
@@ -272,7 +288,11 @@ func c07HeaderSampled(rt *rapid.T) {
 		p |= 1 << uint(rapid.IntRange(0, nbits-1).Draw(rt, "bit"))
 	}
 	strict := rapid.Bool().Draw(rt, "strict")
-	if ok, why := headerFault(b, segCodec(lz), p, strict); !ok {
+	codec := segCodec(lz)
+	if rapid.Bool().Draw(rt, "usedCodec") && !acceptsIntact(codec, b) {
+		rt.Fatalf("base %s: the intact segment is refused", b.name)
+	}
+	if ok, why := headerFault(b, codec, p, strict); !ok {
 		rt.Fatalf("base %s header %x: fault pattern %#x (weight %d, strict=%v) not rejected: %s", b.name, b.enc[:b.hdrLen], p, w, strict, why)
 	}
 	rec.Case(true, stats.HashString(fmt.Sprintf("%x/%x/%v", b.enc[:b.hdrLen], p, strict)), func() string {
@@ -404,10 +424,115 @@ func c07PayloadSampled(rt *rapid.T) {
 		}
 		desc = fmt.Sprintf("burst start=%d len=%d interior=%#x", start, l, mask)
 	}
-	if ok, why := rejectedSeg(segCodec(lz), bytes.NewReader(work)); !ok {
+	codec := segCodec(lz)
+	if rapid.Bool().Draw(rt, "usedCodec") && !acceptsIntact(codec, b) {
+		rt.Fatalf("base %s: the intact segment is refused", b.name)
+	}
+	if ok, why := rejectedSeg(codec, bytes.NewReader(work)); !ok {
 		rt.Fatalf("base %s: %s not rejected: %s", b.name, desc, why)
 	}
 	rec.Case(true, stats.Hash(work[:min(64, len(work))], []byte(desc)), func() string { return b.name + ": " + desc }, "payload-sampled")
 }
 
 func TestC07PayloadSampled(t *testing.T) { rapid.Check(t, c07PayloadSampled) }
+
+// Structured faults: alterations that are not "random bits" but what a confused peer or a lenient decoder would
+// produce - the bytes of a checksum in another order, two header bytes exchanged - kept to those inside the guaranteed
+// detection range (header+CRC-24: 1..7 differing bits; payload trailer: any change within the 4 CRC-32 bytes is one
+// burst of at most 32 bits). Over generated segments, so that many different header and checksum values are covered.
+func permsOf(n int) [][]int {
+	var out [][]int
+	var rec func(cur []int, used []bool)
+	rec = func(cur []int, used []bool) {
+		if len(cur) == n {
+			out = append(out, append([]int{}, cur...))
+			return
+		}
+		for i := 0; i < n; i++ {
+			if !used[i] {
+				used[i] = true
+				rec(append(cur, i), used)
+				used[i] = false
+			}
+		}
+	}
+	rec(nil, make([]bool, n))
+	return out
+}
+
+var perms3, perms4 = permsOf(3), permsOf(4)
+
+func c07Structured(rt *rapid.T) {
+	rec := stats.For("C07")
+	lz := rapid.Bool().Draw(rt, "lz4")
+	plen := rapid.SampledFrom([]int{0, 1, 2, 16, 35, 36, 56, 59, 255, 4096, 131071}).Draw(rt, "plen")
+	if rapid.Bool().Draw(rt, "anylen") {
+		plen = rapid.IntRange(0, 8192).Draw(rt, "plen2")
+	}
+	b := mkBase(gen.Expand(rapid.IntRange(0, 3).Draw(rt, "class"), rapid.Uint64().Draw(rt, "seed"), plen), rapid.Bool().Draw(rt, "sc"), lz)
+	codec := segCodec(lz)
+	if rapid.Bool().Draw(rt, "usedCodec") && !acceptsIntact(codec, b) {
+		rt.Fatalf("base %s: the intact segment is refused", b.name)
+	}
+	tried := 0
+	// header: the three CRC-24 bytes in every other order; every exchange of two header+CRC bytes
+	var alts [][]byte
+	crcAt := b.hdrLen - 3
+	for _, pm := range perms3 {
+		h := append([]byte{}, b.enc[:b.hdrLen]...)
+		for i, j := range pm {
+			h[crcAt+i] = b.enc[crcAt+j]
+		}
+		alts = append(alts, h)
+	}
+	for i := 0; i < b.hdrLen; i++ {
+		for j := i + 1; j < b.hdrLen; j++ {
+			h := append([]byte{}, b.enc[:b.hdrLen]...)
+			h[i], h[j] = h[j], h[i]
+			alts = append(alts, h)
+		}
+	}
+	for _, h := range alts {
+		var pattern uint64
+		for i := 0; i < b.hdrLen; i++ {
+			pattern |= uint64(h[i]^b.enc[i]) << (8 * uint(i))
+		}
+		if w := bits.OnesCount64(pattern); w < 1 || w > 7 {
+			continue
+		}
+		for _, strict := range []bool{false, true} {
+			tried++
+			if ok, why := headerFault(b, codec, pattern, strict); !ok {
+				rt.Fatalf("base %s header %x: bytes rearranged to %x (%d bits differ, strict=%v) not rejected: %s", b.name, b.enc[:b.hdrLen], h, bits.OnesCount64(pattern), strict, why)
+			}
+		}
+	}
+	// payload trailer: the four CRC-32 bytes in every other order, complemented, zeroed
+	tr := len(b.enc) - 4
+	var trailers [][]byte
+	for _, pm := range perms4 {
+		t4 := make([]byte, 4)
+		for i, j := range pm {
+			t4[i] = b.enc[tr+j]
+		}
+		trailers = append(trailers, t4)
+	}
+	trailers = append(trailers, []byte{0, 0, 0, 0}, []byte{0xff, 0xff, 0xff, 0xff},
+		[]byte{^b.enc[tr], ^b.enc[tr+1], ^b.enc[tr+2], ^b.enc[tr+3]})
+	for _, t4 := range trailers {
+		if bytes.Equal(t4, b.enc[tr:]) {
+			continue
+		}
+		work := append(append([]byte{}, b.enc[:tr]...), t4...)
+		tried++
+		if ok, why := rejectedSeg(codec, bytes.NewReader(work)); !ok {
+			rt.Fatalf("base %s: CRC-32 trailer %x replaced by %x (a burst within 32 bits) not rejected: %s", b.name, b.enc[tr:], t4, why)
+		}
+	}
+	rec.Case(tried > 0, stats.Hash(b.enc[:min(64, len(b.enc))], b.enc[tr:]), func() string {
+		return fmt.Sprintf("%s: %d structured alterations (checksum bytes reordered / complemented, header bytes exchanged) all rejected", b.name, tried)
+	}, "structured")
+	rec.Class("structured-alterations", int64(tried))
+}
+
+func TestC07Structured(t *testing.T) { rapid.Check(t, c07Structured) }
